@@ -286,12 +286,12 @@ func (m *model) onReq(opIdx int, c *clientRec, snap snapshot) {
 		}
 		return
 	}
-	g := m.gensOf(c.Srv, c.Key)
+	g := m.gensOf(c.Cache, c.Key)
 	now := snap.Ms
 	missNow := false
 	// the fault (if any) the store applied to the lookup made for this request
 	// is read from the fault store's own call log (first cache only)
-	if m.sc.Cfg.Store == "fault" && c.Srv == 0 {
+	if m.sc.Cfg.Store == "fault" && c.Cache == 0 {
 		if f, called := m.storeFault("get", string(keyBytes(k))); called && f != "" {
 			m.stats.FaultsHit++
 			switch {
